@@ -856,7 +856,7 @@ fn run_eventually(a: &Args, shared: &SharedReport, checks: Vec<&'static str>, wi
                                     run.case(&m, &orc, &Config { target_depth: Some(d), ..Config::plain(st.clone()) }, None);
                                 }
                             }
-                            if with_limits && idx % (if th { 2 } else { 4 }) == 0 {
+                            if with_limits && idx % (if th { 2 } else { 6 }) == 0 {
                                 for f in [Finish::Any, Finish::AnyFailures, Finish::AnyOf(vec![1])] {
                                     run.case(&m, &orc, &Config { finish: f, ..Config::plain(st.clone()) }, None);
                                 }
@@ -865,7 +865,7 @@ fn run_eventually(a: &Args, shared: &SharedReport, checks: Vec<&'static str>, wi
                             }
                         }
                         // simulation: soundness only
-                        let seeds = if th { if idx % 8 == 0 { 32 } else { 2 } } else if idx % 4 == 0 { 4 } else { 1 };
+                        let seeds = if th { if idx % 8 == 0 { 32 } else { 2 } } else if idx % 8 == 0 { 4 } else { 1 };
                         for st in sim_strategies(&m, seeds, idx % (if th { 32 } else { 64 }) == 1) {
                             run.case(&m, &orc, &Config { target_states: Some(12), ..Config::plain(st.clone()) }, None);
                             if with_limits && idx % 4 == 0 {
